@@ -1940,12 +1940,11 @@ theorem poll_simX (reqs : Nat → Sub.Req × Sub.Acl) {st : Sub.State} {c : LCfg
       obtain ⟨ls, b', hr, _, hrel'⟩ := poll_localX reqs h.ok h.vrel hrel
       exact ⟨ls, b', hr, hrel'⟩)
 
-/-- **the client half-closes** (`Recv` returns EOF): the `eof` step of a live POLL client — provided its
-sender holds no response (`eof_held_differs`: SEQ, like the harness, lets a `Send` in flight complete
-after the RPC has returned; in the LTS all goroutines of the RPC stop) -/
+/-- **the client half-closes** (`Recv` returns EOF): the `eof` step of a live POLL client.  The RPC returns:
+a response its sender holds inside a gated `Send` is never delivered, in both models (SEQ drops it as the
+send timeout does; in the LTS all goroutines of the RPC stop) -/
 theorem eof_localX (reqs : Nat → Sub.Req × Sub.Acl) {sh : LShared} {rq : Sub.Req × Sub.Acl}
-    {s : Sub.Subscriber} {b : LSub} (h : SRelX sh rq s b)
-    (hb : s.alive = true → s.req.mode = .poll → s.blocked = none) :
+    {s : Sub.Subscriber} {b : LSub} (h : SRelX sh rq s b) :
     ∃ ls b', runSub (C06Glue.subSys reqs) (ltsOf rq) sh b ls = some b' ∧ SRelX sh rq (SubPoll.eofSub s) b' := by
   have hsame : ¬ (s.alive = true ∧ s.req.mode = .poll) → SubPoll.eofSub s = s := by
     intro hn; unfold SubPoll.eofSub; rw [if_neg hn]
@@ -1958,25 +1957,24 @@ theorem eof_localX (reqs : Nat → Sub.Req × Sub.Acl) {sh : LShared} {rq : Sub.
     exact Or.inl (Or.inr hd)
   · by_cases hm : rq.1.mode = .poll
     · have hmode : (ltsOf rq).mode = .poll := by rw [ltsOf_mode', hm]; rfl
-      have hes : SubPoll.eofSub s = { s with alive := false, status := some .ok } := by
+      have hes : SubPoll.eofSub s = { s with alive := false, status := some .ok, blocked := none } := by
         unfold SubPoll.eofSub
         rw [if_pos ⟨hp.alive, by rw [hp.req]; exact hm⟩]
       rw [hes]
       refine ⟨[.eof], b.finish .ok, ?_, Or.inl (Or.inr ?_)⟩
       · simp [runSub, SubLTS.subFire, hp.bstatus, hmode, hp.walker]
-      · exact { alive := rfl, acl := hp.acl, blocked := hb hp.alive (by rw [hp.req]; exact hm), pc := rfl,
+      · exact { alive := rfl, acl := hp.acl, blocked := rfl, pc := rfl,
                 snd := rfl, reg := rfl, bclosed := rfl, armed := rfl, status := ⟨.ok, rfl, rfl⟩, sent := hp.sent }
     · refine ⟨[], b, rfl, ?_⟩
       rw [hsame (by rintro ⟨_, hm'⟩; rw [hp.req] at hm'; exact hm hm')]
       exact Or.inr hp
 
 theorem eof_simX (reqs : Nat → Sub.Req × Sub.Acl) {st : Sub.State} {c : LCfg} (h : StRelX reqs st c)
-    (id : String)
-    (hb : ∀ s ∈ st.subs, s.id = id → s.alive = true → s.req.mode = .poll → s.blocked = none) :
+    (id : String) :
     ∃ ls c', SubLTS.fireAll (C06Glue.subSys reqs) c ls = some c' ∧ StRelX reqs (Sub.eof st id) c' := by
   rw [SubPoll.eof_eq]
   exact updateSub_simX reqs h id SubPoll.eofSub
-    (fun rq s b hs hid hrel => eof_localX reqs hrel (hb s hs hid))
+    (fun rq s b _ _ hrel => eof_localX reqs hrel)
 
 end Refine
 end Gnmi
